@@ -350,7 +350,9 @@ def check_signer(w, model, default_id, op, r, deleted_keys):
             if sel_cert is None:
                 expect_fail = True
         kl = None
-        if op.get('kl') is not None:
+        if op.get('kl') == 'unset':
+            args['key_locator'] = None         # present but unset: the same as not given
+        elif op.get('kl') is not None:
             kl = nm(['locator', str(op['kl'])])
             args['key_locator'] = kl
         try:
@@ -808,7 +810,7 @@ def _op():
         st.fixed_dictionaries({'op': st.just('get_signer'), 't': i,
                                'form': st.sampled_from(['default', 'identity', 'identity-obj', 'key', 'key-obj', 'cert', 'cert-obj',
                                                         'digest', 'none', 'deleted-key']),
-                               'kl': st.one_of(st.none(), st.none(), st.integers(0, 1))}),
+                               'kl': st.one_of(st.none(), st.none(), st.integers(0, 1), st.just('unset'))}),
         st.fixed_dictionaries({'op': st.just('get_signer'), 't': i, 'form': st.sampled_from(['key', 'cert', 'identity']),
                                'kl': st.integers(0, 1)}),
         st.just({'op': 'reopen'}),
@@ -869,7 +871,73 @@ def _fault_enum(tier):
                                                  {'op': 'get_signer', 't': 0, 'form': 'deleted-key', 'kl': None}, {'op': 'reopen'}]}
 
 
+def run_big(case):
+    """A scope with MORE entries than any page or batch size (101..260 keys under one identity, or certificates under one key)
+    is deleted: everything beneath it goes, private keys included; a neighbour identity is untouched; also after a reopen."""
+    r = Result()
+    w = World(case.get('seed', 0))
+    try:
+        kc = w.kc
+        big, small = nm(['big']), nm(['small'])
+        kc.touch_identity(small)
+        ident = kc.touch_identity(big)
+        n = case['n']
+        for i in range(n - 1):
+            kc.new_key(big, 'ec', key_id=f'k{i}')
+        raw, _d = w.raw()
+        names = sorted(raw[Name.to_bytes(big)]['keys'])
+        if len(names) != n or len(kc[big]) != n or len(list(kc[big])) != n:
+            r.bad('C15/big/views-disagree', f'{len(names)} rows, len() {len(kc[big])}, iteration {len(list(kc[big]))}, expected {n}')
+            return r
+        certs = {kn: sorted(raw[Name.to_bytes(big)]['keys'][kn]['certs']) for kn in names}
+        if case['how'] == 'del_identity':
+            kc.del_identity(big)
+        else:
+            for key_name in list(kc[big]):
+                kc.del_key(key_name)
+        if case.get('reopen'):
+            w.reopen(True)
+            kc = w.kc
+        raw, _d = w.raw()
+        left = raw.get(Name.to_bytes(big), {'keys': {}})['keys']
+        if left:
+            r.bad(f'C15/big/{case["how"]}/keys-left-behind', f'{len(left)} of {n} keys still listed')
+        if w.orphans:
+            r.bad(f'C15/big/{case["how"]}/orphan-rows', str(w.orphans[:2]))
+        stale = [kn for kn in names if kc.tpm.key_exist(Name.from_bytes(kn))]
+        if stale:
+            r.bad(f'C15/big/{case["how"]}/private-keys-left-behind', f'{len(stale)} of {n}')
+        for kn in names[::max(1, n // 7)] + names[-2:]:
+            for a in ({'key': Name.from_bytes(kn)}, {'cert': Name.from_bytes(certs[kn][0])} if certs[kn] else None):
+                if a is None:
+                    continue
+                try:
+                    if kc.get_signer(a) is not None:
+                        r.bad(f'C15/big/{case["how"]}/signer-for-deleted-key', f'args {list(a)}')
+                        break
+                except Exception:
+                    pass
+        if Name.to_bytes(small) not in raw or len(raw[Name.to_bytes(small)]['keys']) != 1:
+            r.bad(f'C15/big/{case["how"]}/neighbour-identity-damaged', '')
+    except Exception as e:
+        r.bad(f'C15/big/raised/{type(e).__name__}', repr(e)[:200])
+    finally:
+        w.close()
+    r.key = (case['n'] // 50, case['how'], bool(case.get('reopen')))
+    r.classes = (f'keys:{case["n"] // 50 * 50}+', case['how'])
+    return r
+
+
+def _big_cases(tier):
+    for n in ((101, 130) if tier == 'quick' else (100, 101, 102, 130, 201, 260)):
+        for how in ('del_identity', 'del_keys_while_iterating'):
+            for reopen in (False, True):
+                yield {'n': n, 'how': how, 'reopen': reopen, 'seed': n}
+
+
 SUBCHECKS = {
+    'big-scopes': SubCheck(run_big, enumerate=_big_cases, exhaustive={'quick': False, 'thorough': False},
+                           note='an identity with 101..260 keys deleted (del_identity, or key by key while iterating its view)'),
     'fault-steps': SubCheck(run_case, enumerate=_fault_enum, exhaustive={'quick': True, 'thorough': True},
                             note='every failing step index (1..15 / 1..24) of 12 operation kinds on a populated store, with and without crash'),
     'histories': SubCheck(run_case, strategy=lambda tier: _case(False), examples={'quick': 600, 'thorough': 8000}),
